@@ -29,6 +29,10 @@ SK = gen.schema(keytype=RK,
 XML = dict(_XML01)
 VIEWS = dict(_VIEWS01)
 XML['SK'] = gen.render(SK)
+# a schema author's slip: a default its datatype refuses (converted when a section of the type is finished)
+SB = gen.schema(types=[gen.stype('ta', [gen.key('ka', 'integer', default='ten'), gen.key('kb')])],
+                items=[gen.multisection('ta', '*', attr='xs'), gen.key('kt')])
+XML['SB'] = gen.render(SB)
 VIEWS['SK'] = gen.View(SK)
 
 W2 = ['w', 2]
@@ -176,6 +180,12 @@ class C08(Harness):
             us.append({'schema': 'S2', 'files': [['main.conf', ['kt 5', '<ta n1>', '%include sub/inc.conf', '</ta>']],
                                                  ['sub/inc.conf', ['', ['ka ', V1], '', '%include ' + ref]]],
                        'badref': [1, 4]})
+        # '<type/>' exactly as '<type>' + '</type>': a fault found while the section is FINISHED whose position
+        # does not come from the text (a default the datatype refuses) has the same class, value, original exception and position
+        for sch, head in (('SB', ['kt 1']), ('SB', [])):
+            for nm in ([], [' ', W2]):
+                us.append({'schema': sch, 'selfclose': True,
+                           'files': [['main.conf', head + [['<ta'] + nm + ['/>'], 'kt 2']]]})
         # the same single-file layouts loaded from a file object WITHOUT a URL: line numbers must be
         # just as right; there is no URL to report
         for s, f in _layouts(tier):
@@ -218,11 +228,23 @@ class C08(Harness):
         return res
 
     def observe(self, unit, inp):
-        import ZConfig
         files = self.files(unit, inp)
+        if unit.get('selfclose'):
+            concrete = common.all_concrete(inp)
+            short = self._outcome(unit, files, concrete)
+            name, lines = files[0]
+            i = [k for k, l in enumerate(lines) if l.endswith('/>')][0]
+            opened = lines[i][:-2] + '>'
+            # closer on the same... next line: positions of finish-time faults do not come from the text
+            long_ = self._outcome(unit, [(name, lines[:i] + [opened, '</ta>'] + lines[i + 1:])], concrete)
+            return ('reject' if short[0] == 'reject' else short[0], 'pair', short, long_)
+        return self._outcome(unit, files, common.all_concrete(inp))
+
+    def _outcome(self, unit, files, concrete):
+        import ZConfig
         store = {P.BASE + n: ls for n, ls in files}
         dtsupport.LAST['exc'] = None
-        with common.env_scope(common.all_concrete(inp), {}), P.mem_resources(store):
+        with common.env_scope(concrete, {}), P.mem_resources(store):
             r = P.run_load(XML[unit['schema']], files[0][1], overrides=unit.get('overrides', ()),
                            url=None if unit.get('nourl') else P.BASE + files[0][0])
         if r[0] == 'ok':
@@ -263,6 +285,8 @@ class C08(Harness):
         return flat
 
     def expect(self, unit, inp, real):
+        if unit.get('selfclose'):
+            return (real[3][0], 'pair', real[3], real[3])
         if 'badref' in unit:
             fi, ln = unit['badref']
             # (values are converted when their section is closed - after the directive was refused)
@@ -288,6 +312,8 @@ class C08(Harness):
                 (r[3], True) if r[2] == 'conversion' else None)
 
     def agree(self, unit, real, exp):
+        if unit.get('selfclose'):
+            return deep_eq(real, exp)
         if exp[0] == 'any':
             return z3.BoolVal(real[0] in ('ok', 'reject'))
         if exp[0] == 'ok':
@@ -316,6 +342,8 @@ class C08(Harness):
         return real[0] == 'reject'
 
     def finding(self, unit, inp, real, exp):
+        if unit.get('selfclose'):
+            return None
         if real[0] == 'reject' and exp[0] == 'reject':
             if real[1] == 'subst-syntax' and real[2] is None:
                 return 'F5'
